@@ -490,7 +490,7 @@ def _cleanup_tmp():
     now = time.time()
     for d in glob.glob("/tmp/c15w-*"):
         try:
-            if now - os.path.getmtime(d) > 600:
+            if now - os.path.getmtime(d) > 120:
                 shutil.rmtree(d, ignore_errors=True)
         except OSError:
             pass
